@@ -49,6 +49,12 @@ func rootValue(c Case) any {
 			m[k] = num(k)
 		}
 		return m
+	case "mapaa":
+		m := map[any]any{}
+		for k, v := range c.Data {
+			m[k] = goValue(v)
+		}
+		return m
 	case "struct", "*struct":
 		r := rootData{rootBase: rootBase{Pe: str("Pe"), Pn: num("Pn")}, Pa: str("Pa"), Pb: str("Pb")}
 		if c.Root == "*struct" {
@@ -240,8 +246,8 @@ func rootCase(s rootSpec, k int) Case {
 	return c
 }
 
-var rootKinds = []string{"", "mapss", "*mapss", "mapsi", "struct", "*struct"}
-var entries = []string{"", "vue", "fragment"}
+var rootKinds = []string{"", "mapaa", "mapss", "*mapss", "mapsi", "struct", "*struct"}
+var entries = []string{"", "vue", "fragment", "nodes", "built", "string", "file"}
 
 func enumRoots(yield func(Case) bool) {
 	k := 0
